@@ -588,12 +588,13 @@ extern "C" size_t vfix(uint8_t *d, size_t size, size_t max, unsigned seed) {
 
 // ---------------------------------------------------------------- seed corpus writer: VERIF_C04_MAKE_SEEDS=<dir> ./t_c04
 static int g_seed_no;
+static uint8_t g_seed_s0 = 0, g_seed_s1 = 0;    // slicing seed of the next put_seed (0,0 = one shot)
 static void put_seed(const std::string &dir, const std::string &name, unsigned entry, uint8_t fb, uint8_t mem, uint8_t p1, uint8_t p2, uint8_t p3, const uint8_t *data, size_t n) {
 	std::string fn = name; for (auto &ch : fn) if (!(isalnum((unsigned char)ch) || ch == '-' || ch == '_' || ch == '.')) ch = '_';
 	char pre[64]; snprintf(pre, sizeof pre, "%03d-%s-", g_seed_no++, entry_names[entry]);
 	std::string path = dir + "/" + pre + fn;
 	FILE *f = fopen(path.c_str(), "wb"); if (!f) { fprintf(stderr, "cannot write %s\n", path.c_str()); exit(3); }
-	const uint8_t h[HDR] = {(uint8_t)entry, fb, mem, 0, 0, p1, p2, p3};
+	const uint8_t h[HDR] = {(uint8_t)entry, fb, mem, g_seed_s0, g_seed_s1, p1, p2, p3};
 	fwrite(h, 1, HDR, f); if (n) fwrite(data, 1, n, f); fclose(f);
 }
 static void put_text(const std::string &dir, const char *name, unsigned entry, uint8_t p1, const std::string &t) { put_seed(dir, name, entry, 0, 0, p1, 0, 0, (const uint8_t *)t.data(), t.size()); }
@@ -669,6 +670,24 @@ static void make_seeds(const std::string &dir) {
 		for (unsigned t = 10; t <= 20; ++t) { char nm[64]; snprintf(nm, sizeof nm, "syn-expensive-symbol-%zu-bytes-cut-after-%u", A.e_cost, t);
 			put_seed(dir, nm, E_RAW, 0, 0, 1, 0, 4, A.bytes.data(), std::min(A.bytes.size(), A.e_first + t)); }
 		put_seed(dir, "syn-expensive-symbol-whole", E_RAW, 0, 0, 1, 0, 4, A.bytes.data(), A.bytes.size()); }
+	// threaded decoder: two Blocks with both sizes in their headers (as the threaded encoder writes them), the first one valid, the
+	// second one invalid from its first byte (LZMA2 control byte 0x03), input and output in small pieces: the worker of Block 2
+	// fails while the main thread is still handing it the rest of the Block and the output of Block 1 is still being fetched
+	{ std::vector<uint8_t> text; for (unsigned i = 0; text.size() < 800; ++i) { char b[32]; int k = snprintf(b, sizeof b, "line %u of the text, ", i * 7919u % 1000); text.insert(text.end(), b, b + k); }
+		text.resize(800);
+		lzma_mt mt; memset(&mt, 0, sizeof mt); mt.threads = 1; mt.block_size = 400; mt.preset = 0; mt.check = LZMA_CHECK_CRC32;
+		lzma_stream e = LZMA_STREAM_INIT; std::vector<uint8_t> D(4096);
+		if (lzma_stream_encoder_mt(&e, &mt) != LZMA_OK) { fprintf(stderr, "threaded encoder unavailable\n"); exit(3); }
+		e.next_in = text.data(); e.avail_in = text.size(); e.next_out = D.data(); e.avail_out = D.size();
+		if (lzma_code(&e, LZMA_FINISH) != LZMA_STREAM_END) { fprintf(stderr, "seed encode failed\n"); exit(3); }
+		D.resize(D.size() - e.avail_out); lzma_end(&e);
+		ref::XzOpts o; ref::XzResult R = ref::xz_decode(D.data(), D.size(), o);
+		if (R.status != ref::RS_OK || R.streams.empty() || R.streams[0].blocks.size() != 2) { fprintf(stderr, "seed layout unexpected\n"); exit(3); }
+		const size_t off2 = R.streams[0].blocks[1].data_off;
+		for (unsigned v = 0; v < 4; ++v) { std::vector<uint8_t> B = D; B[off2 + (v & 1) * 40] = 0x03; g_seed_s0 = v < 2 ? 1 : 2; g_seed_s1 = (uint8_t)(v * 37);
+			char nm[80]; snprintf(nm, sizeof nm, "syn-mt-two-sized-blocks-second-invalid-at-byte-%u-sliced-%u", (v & 1) * 40, v);
+			put_seed(dir, nm, E_STREAM_MT, v == 3 ? 0x20 : 0, 0, 1 + (v & 1), 0, 0, B.data(), B.size()); }
+		g_seed_s0 = g_seed_s1 = 0; }
 	fprintf(stderr, "wrote %d seed cases to %s\n", g_seed_no, dir.c_str());
 }
 
